@@ -27,6 +27,18 @@ Read again : ONE long-lived handle, the damage in place, the nine reads (API x v
              nine reads run again through the same handle: each raises or returns the complete answer.  Outcome,
              trace and yielded prefix of every such read are also compared with the model's read_current on the store
              of that moment (read_current_again_after_raise).
+Blocks     : Avro containers of SEVERAL blocks -- variant `blocks` (manifest list and manifests re-encoded one record per
+             block; the whole damage matrix) and a bulk commit whose manifest spans several blocks by itself (entry size
+             measured, writer's default block size) -- with damage placed by BLOCK: for the first, second and last block
+             (thorough: every block) the file cut in the middle of the block, everything from there on replaced by random
+             bytes, the block's count byte flipped, and a stream that fails once the bytes before that point have been
+             delivered.  A streaming decoder has then handed out the records of the leading blocks, and those of the
+             damaged block that precede the damage (`prefix`; also within a container of ONE block), before it raises; in the read-again sessions every read runs TWICE with the damage in place (after its own earlier
+             raise and after every other API's) and once after it has cleared: a reader or handle that keeps what a
+             failed decode had gathered returns a subset there.  Model/ReadBlocks.v (stream / collect over block
+             decodings; C14_blocks_all_or_nothing, C14_bad_manifest_block_fails_closed, C14_decode_cache_transparent) is
+             compared with fastavro on every container byte string of those tables (collect_blocks: records, raise, and
+             the number of records handed out before the raise).
 Mid-call   : the store changes DURING a read: the damage is applied when the k-th storage operation on the target file
              has finished, for every k the code under test performs in that call (a re-read of a file is a new slot).
              The call must raise or return the answer of the table as it was; on a checksummed data file with
@@ -56,6 +68,8 @@ THEOREMS = ["C14_fail_closed", "C14_never_partial", "C14_never_partial_of_served
             "C14_not_empty_of_served_version", "C14_checksum", "C14_checksum_by_default", "C14_untouched",
             "C14_row_count_metadata_only", "C14_history_independent", "C14_checksum_survives_history", "C14_no_check_use_gap", "C14_list_fields_without_read_meaning",
             "C14_recovery_listing_fails_closed", "C14_batched_guard_complete", "C14_healthy_ok",
+            "C14_blocks_all_or_nothing", "C14_blocks_raise_at_first_bad_block", "C14_bad_manifest_block_fails_closed",
+            "C14_bad_list_block_fails_closed", "C14_decode_cache_transparent", "C14_eager_decode_cache_refuted",
             "C14_fail_closed_full_refuted", "C14_not_empty_full_refuted"]
 REQ = ["DS.Gen.GenRead", "DS.Model.Read"]
 KNOWN_KEY = "current-metadata-file-deleted-serves-previous-version"
@@ -73,7 +87,13 @@ MANIFEST_ENTRY = {
                   "on fresh handles, on a handle that has already read the undamaged table (read, damage, read again), on a handle "
                   "on which a read has already RAISED (damage, read, read again with the damage in place and after it has cleared; "
                   "C14_history_independent), on tables whose history contains deletes / rewrites (C14_checksum_survives_history) and "
-                  "with the damage applied DURING the call after each storage operation on the target file (C14_no_check_use_gap)",
+                  "with the damage applied DURING the call after each storage operation on the target file (C14_no_check_use_gap), "
+                  "and on manifest lists / manifests that span SEVERAL Avro blocks (re-encoded one record per block; a bulk commit) "
+                  "damaged block by block -- cut, overwritten, count flipped, stream failing after the leading blocks were delivered -- "
+                  "with every read repeated on the same handle (C14_blocks_all_or_nothing, C14_blocks_raise_at_first_bad_block, "
+                  "C14_bad_manifest_block_fails_closed, C14_bad_list_block_fails_closed over Model/ReadBlocks.v: a container is a list of "
+                  "blocks of any number and size, the reader returns all records of all blocks or raises; C14_decode_cache_transparent / "
+                  "C14_eager_decode_cache_refuted: a per-handle decode cache is invisible iff it registers only complete decodes)",
     "level_note": "PARTIAL in one case, kept visible as C14_fail_closed_full / C14_not_empty_full (Definitions) + their _refuted "
                   "theorems: the current metadata file deleted while the pointer names it -- refresh() recovers the previous version "
                   "(as C10 demands) and every API returns its rows; on a table with ONE commit that version is v0 and the broken "
@@ -83,6 +103,10 @@ MANIFEST_ENTRY = {
                   "(caller-built DataFile without one: outside). C14_history_independent and C14_list_fields_without_read_meaning "
                   "hold by construction of the model (a handle has no read state; only the manifest path of a list entry is "
                   "projected); the same-handle and field-edit correspondences are what tie them to the code. "
+                  "The block theorems speak of the decoders as [collect] over per-block decodings (with_block_decoders); that fastavro "
+                  "behaves so is measured (correspondence collect_blocks), that the code's loop keeps its accumulator local is pinned by the "
+                  "golden AST of read_manifest_file / read_manifest_list_file; the code has no decode cache (C14_decode_cache_transparent "
+                  "states what one would have to satisfy). "
                   "Hypothesis json_not_avro (bytes the JSON fallback "
                   "accepts make fastavro raise a fallback class) is checked on every byte string of every run. "
                   "Filters/pruning are outside the model (C12/C13); a match-all filter is exercised by the oracle only. "
@@ -367,13 +391,13 @@ def _rewrite(path: str, rel: str, content: bytes) -> None:
         f.write(content)
 
 
-def _avro_rewrite(b: bytes, edit) -> bytes:
+def _avro_rewrite(b: bytes, edit, **writer_options) -> bytes:
     import fastavro
     rd = fastavro.reader(io.BytesIO(b))
     schema = rd.writer_schema
     recs = edit(list(rd))
     out = io.BytesIO()
-    fastavro.writer(out, schema, recs)
+    fastavro.writer(out, schema, recs, **writer_options)
     return out.getvalue()
 
 
@@ -447,6 +471,17 @@ def variant_rowgroups(path: str) -> None:
         _rewrite(path, m, _avro_rewrite(inv.files[m], reregister))
 
 
+def variant_blocks(path: str) -> None:
+    """Every Avro container of the current snapshot (manifest list, manifests) re-encoded with ONE record per block
+    (writer sync interval 1 byte): the same records, spread over as many container blocks as there are records --
+    what a bulk commit produces naturally (a manifest of more than ~60 entries), on a table small enough for the
+    whole damage matrix.  A streaming decoder hands out the records of the leading blocks before it meets a
+    damaged later one."""
+    inv = Inventory(path)
+    for f in [inv.list] + inv.manifests:
+        _rewrite(path, f, _avro_rewrite(inv.files[f], lambda recs: recs, sync_interval=1))
+
+
 def _variant_cur(value):
     def f(path: str) -> None:
         inv = Inventory(path)
@@ -471,6 +506,7 @@ VARIANTS: Dict[str, Tuple[List[List[int]], Any, bool]] = {
     "dup": ([[2, 1], [2]], variant_dup, True),
     "nosum": ([[2, 1], [2]], variant_nosum, True),
     "rowgroups": ([[7, 5], [6]], variant_rowgroups, True),
+    "blocks": ([[2, 1, 1], [1, 2]], variant_blocks, True),
     "dangling": ([[2], [1]], _variant_cur(424242), False),
     "cur-minus1": ([[2], [1]], _variant_cur(-1), False),
     "cur-null": ([[2], [1]], _variant_cur(None), False),
@@ -485,13 +521,21 @@ OPNAME = {"exists": "OpExists", "open_file": "OpOpen", "read_file": "OpRead", "l
 
 
 class _FailingStream:
-    """A stream that opens fine and fails on the first read (transient error while streaming)."""
+    """A stream that opens fine and fails while it is being read (transient error while streaming): on the first
+    read, or -- limit given -- once `limit` bytes have been delivered (the reader has already decoded what came
+    before)."""
 
-    def __init__(self, inner):
+    def __init__(self, inner, limit: int = 0):
         self.inner = inner
+        self.limit = limit
+        self.given = 0
 
     def read(self, *a):
-        raise TransientIO("injected transient read error")
+        if self.given >= self.limit:
+            raise TransientIO("injected transient read error")
+        data = self.inner.read(*a)       # a read that begins below the limit is served whole
+        self.given += len(data)
+        return data
 
     def __enter__(self):
         return self
@@ -625,8 +669,8 @@ class Instr:
                         res = _NotifyClose(res, self._mutate_locked)
                     else:
                         self._mutate()
-            if hit and self.fault[3] == "stream":
-                return _FailingStream(res)
+            if hit and self.fault[3].startswith("stream"):
+                return _FailingStream(res, int(self.fault[3].partition("@")[2] or 0))
             return res
         return wrapped
 
@@ -981,10 +1025,71 @@ def field_edits_for(inv: Inventory, path: str, tier: str) -> List[Dict[str, Any]
     return out
 
 
+def avro_blocks(b: bytes) -> List[Tuple[int, int]]:
+    """[start, end) of every data block of an Avro container (end = just after the block's sync marker)."""
+    bounds = avro_boundaries(b)
+    return list(zip(bounds, bounds[1:]))
+
+
+def decodable_prefix(b: bytes) -> Tuple[int, bool]:
+    """(records a streaming Avro decoder hands out, whether it then raises) -- for the evidence."""
+    import fastavro
+    n = 0
+    try:
+        for _ in fastavro.reader(io.BytesIO(b)):
+            n += 1
+    except Exception:  # noqa: BLE001
+        return n, True
+    return n, False
+
+
+def block_damages(inv: Inventory, path: str, tier: str, rng: random.Random) -> List[Dict[str, Any]]:
+    """Damage placed by the container's BLOCK structure, for every block (quick: the first, the second and the
+    last): the file cut in the middle of the block, everything from the middle of the block on replaced by random
+    bytes, the block's first byte (its record count) flipped, and a stream that fails once the bytes before the
+    middle of the block have been delivered.  On a container of several blocks a streaming decoder has handed out
+    the records of the blocks BEFORE the damaged one when it fails: `prefix` records that a reader must not keep."""
+    blocks = avro_blocks(inv.files[path])
+    which = list(range(len(blocks)))
+    if tier != "thorough":
+        which = sorted(set(which[:2] + which[-1:]))
+    out = []
+    for j in which[:12]:
+        for name in (f"blockcut@{j}", f"blockrand@{j}:{rng.randrange(10 ** 6)}", f"blockflip@{j}", f"transient-stream@{j}:OpOpen:0"):
+            d = damage_by_name(inv, path, name)
+            if d is not None:
+                out.append(d)
+    return out
+
+
 def damage_by_name(inv: Inventory, path: str, name: str) -> Optional[Dict[str, Any]]:
     """Rebuild one damage from its name alone (replay, shrinking)."""
     orig = inv.files.get(path, b"")
     n = len(orig)
+    if name.startswith("block") or name.startswith("transient-stream@"):
+        head, _, rest = name.partition("@")
+        j = int(rest.split(":")[0])
+        blocks = avro_blocks(orig)
+        if j >= len(blocks):
+            return None
+        start, end = blocks[j]
+        mid = start + max(1, (end - start - 16) // 2)
+        extra = {"tail": True, "block": j, "blocks": len(blocks)}
+        if head == "transient-stream":
+            _k, op, occ = name.split(":")
+            return dict(extra, name=name, **{"class": "transient"}, writes={}, fault=(path, op, int(occ), f"stream@{mid}"),
+                        prefix=decodable_prefix(orig[:start])[0])
+        if head == "blockcut":
+            new = orig[:mid]
+        elif head == "blockrand":
+            rs = random.Random(int(rest.split(":")[1]))
+            new = orig[:mid] + bytes(rs.randrange(256) for _ in range(n - mid))
+        elif head == "blockflip":
+            new = orig[:start] + bytes([orig[start] ^ 0xFF]) + orig[start + 1:]
+        else:
+            return None
+        cls = {"blockcut": "truncate", "blockrand": "replace", "blockflip": "flip"}[head]
+        return dict(extra, name=name, **{"class": cls}, writes={path: new}, prefix=decodable_prefix(new)[0])
     if name.startswith("edit:"):
         return field_edit(inv, path, name)
     if name.startswith("xor@"):
@@ -1016,7 +1121,7 @@ def damage_by_name(inv: Inventory, path: str, name: str) -> Optional[Dict[str, A
     return None
 
 
-def damages_for(inv: Inventory, path: str, tier: str, rng: random.Random) -> List[Dict[str, Any]]:
+def damages_for(inv: Inventory, path: str, tier: str, rng: random.Random, edits: bool = True) -> List[Dict[str, Any]]:
     """Each damage: {"name", "writes": {path: bytes|None}, "fault": (path, op, occ, mode)|None, "class"}."""
     role = inv.roles[path]
     orig = inv.files[path]
@@ -1035,7 +1140,9 @@ def damages_for(inv: Inventory, path: str, tier: str, rng: random.Random) -> Lis
         out.append({"name": f"truncate@{o}", "class": "truncate", "writes": {path: orig[:o]}, "structural": o in bounds})
     out.append(damage_by_name(inv, path, f"random:{rng.randrange(10 ** 6)}"))
     if role in ("list", "manifest"):
-        out.extend(field_edits_for(inv, path, tier))
+        out.extend(block_damages(inv, path, tier, rng))
+        if edits:
+            out.extend(field_edits_for(inv, path, tier))
     if role in ("list", "manifest"):
         # bytes on which fastavro raises something OUTSIDE the fallback tuple (MemoryError from a huge header read,
         # KeyError 'avro.schema'): the reader must let it propagate, not fall back, and certainly not return
@@ -1453,7 +1560,7 @@ def run_table(ctx, path: str, shape: List[List[int]], tag: str, file_limit: Opti
     for p, role in targets:
         for d in damages_for(inv, p, ctx.tier, rng):
             red = (role in reduced) if isinstance(reduced, (set, frozenset)) else bool(reduced)
-            if red and not (d["name"] in REDUCED or d["class"] == "transient" or d.get("structural")
+            if red and not (d["name"] in REDUCED or d["class"] == "transient" or d.get("structural") or d.get("tail")
                             or d["name"].startswith("random") or d.get("footer_flip") or d.get("value_flip")):
                 continue
             targets_dmgs.append((p, role, d))
@@ -1948,8 +2055,8 @@ def damage_scope(inv: "Inventory", p: str, role: str, dmg: Dict[str, Any]) -> Tu
 
 def reread_damages(inv: "Inventory", p: str, role: str, rng: random.Random, tier: str) -> List[Dict[str, Any]]:
     out = []
-    for d in damages_for(inv, p, "quick", rng):
-        if (d["class"] == "transient" or d["name"] in ("delete", "truncate@1") or d["name"].startswith("random:")
+    for d in damages_for(inv, p, "quick", rng, edits=False):
+        if (d["class"] == "transient" or d["name"] in ("delete", "truncate@1") or d["name"].startswith("random:") or d.get("tail")
                 or (role == "data" and (d["class"] == "swap" or d.get("value_flip")))
                 or (tier == "thorough" and d.get("structural"))):
             out.append(d)
@@ -2018,7 +2125,106 @@ def judge_reread(inv: "Inventory", role: str, p: str, dmg: Dict[str, Any], api: 
     return None
 
 
-def oracle_reread(ctx, path: str, shape: List[Any], variant: Optional[str], tag: str) -> None:
+def wide_commit_shape(path: str) -> List[Any]:
+    """One commit that adds enough data files for its manifest to span SEVERAL Avro blocks: the entry size is measured
+    on a two-file manifest, the block size is the writer's default sync interval."""
+    import inspect
+
+    import fastavro
+    SYNC_INTERVAL = inspect.signature(fastavro.writer).parameters["sync_interval"].default
+    build_table(path, [[1, 1]])
+    inv = Inventory(path)
+    b = inv.files[inv.manifests[0]]
+    blocks = avro_blocks(b)
+    per_entry = max(1, (len(b) - blocks[0][0] - 16) // 2)
+    return [[1] * (int(1.3 * SYNC_INTERVAL / per_entry) + 2)]
+
+
+def block_decoding(kind: str, b: bytes) -> Optional[List[Tuple[str, Any]]]:
+    """The container split at its sync markers and every block decoded ON ITS OWN (header + that one block; what
+    follows the last marker is a block too): [("good", records) | ("bad", mro, records handed out before the raise)].
+    None: no header, no container."""
+    bounds = avro_boundaries(b)
+    if not bounds:
+        return None
+    header = b[:bounds[0]]
+    pieces = [b[s_:e_] for s_, e_ in zip(bounds, bounds[1:])]
+    if bounds[-1] < len(b):
+        pieces.append(b[bounds[-1]:])
+    out: List[Tuple[str, Any]] = []
+    for piece in pieces:
+        r = classify(kind, header + piece)
+        out.append(("good", r[1]) if r[0] == "ok" else ("bad", r[1], handed_out(kind, header + piece)))
+    return out
+
+
+def handed_out(kind: str, b: bytes) -> List[Any]:
+    """The records a streaming decode of b hands out before it raises (projected as the model's records)."""
+    import fastavro
+    out: List[Any] = []
+    try:
+        for r in fastavro.reader(io.BytesIO(b)):
+            if kind == "avro_list":
+                out.append(r["manifest_path"])
+            else:
+                df = r["data_file"]
+                out.append((df["file_path"], df["record_count"], df.get("checksum")))
+    except Exception:  # noqa: BLE001
+        pass
+    return out
+
+
+def corr_blocks(ctx, mc: "ModelCtx", strings: List[Tuple[str, bytes]], tag: str) -> None:
+    """Model/ReadBlocks.v against fastavro: for every container byte string in play (undamaged and damaged), the
+    blocks decoded one by one, folded by the model's reader loop [collect] / iterator [stream], must give what
+    fastavro gives on the whole file: the same records when it returns, a raise when it raises, and -- the part a
+    reader must not keep -- the same number of records handed out BEFORE the raise."""
+    cases, exprs = [], []
+    for role, b in dict.fromkeys(strings):
+        kind = "avro_list" if role == "list" else "avro_man"
+        blocks = block_decoding(kind, b)
+        if blocks is None:
+            continue
+        render = mc.paths if role == "list" else mc.dfiles
+        term = "[" + "; ".join(f"BGood {render(x[1])}" if x[0] == "good" else f"BBad {render(x[2])} {mc.mro(x[1])}" for x in blocks) + "]"
+        proj = "(fun x => x)" if role == "list" else "(fun d => (dpath d, dcount d, dsum d))"
+        exprs.append(f"(match collect {term} with AvOk xs => (true, map {proj} xs) | AvRaise _ => (false, []) end, "
+                     f"N.of_nat (List.length (fst (stream {term}))), N.of_nat (List.length {term}))")
+        cases.append((role, kind, b))
+    if not exprs:
+        return
+    try:
+        got = coqbuild.coq_eval(REQ + ["DS.Model.ReadBlocks"], exprs, chunk=40)
+    except RuntimeError as e:
+        ctx.proof_problems.append(f"model evaluation failed (block decoding, {tag}): " + str(e)[:600])
+        return
+    bad = []
+    multi = 0
+    for (role, kind, b), g in zip(cases, got):
+        ok, recs, handed, nblocks = g      # left-nested pairs print flat
+        multi += 1 if nblocks > 1 else 0
+        full = classify(kind, b)
+        n_before, raised = decodable_prefix(b)
+        if role == "list":
+            want = [mc.key(p.lstrip("/")) if p else None for p in full[1]] if full[0] == "ok" else None
+            have = [(x.x if hasattr(x, "x") else x) for x in recs]
+        else:
+            want = [(mc.key(p.lstrip("/")), c, (int(h[:12], 16) if h else None)) for p, c, h in full[1]] if full[0] == "ok" else None
+            have = [(k, c, (h.x if hasattr(h, "x") else h)) for k, c, h in recs]
+        why = None
+        if ok != (full[0] == "ok"):
+            why = f"whole file {'decodes' if full[0] == 'ok' else 'raises ' + str(full[1][:1])} / collect over its blocks {'returns' if ok else 'raises'}"
+        elif ok and have != want:
+            why = f"records: whole file {want} / collect {have}"
+        elif not ok and raised and handed != n_before:
+            why = f"records handed out before the raise: fastavro {n_before} / stream {handed}"
+        if why:
+            bad.append({"table": tag, "role": role, "blocks": nblocks, "bytes": len(b), "why": why})
+    ctx.stats.setdefault("block_decoding", {})[tag] = {"byte_strings": len(cases), "of_several_blocks": multi}
+    ctx.correspondence("collect_blocks", len(cases), bad)
+
+
+def oracle_reread(ctx, path: str, shape: List[Any], variant: Optional[str], tag: str, block_plane_only: bool = False) -> None:
     """Every reachable file x damage inside the property x ONE long-lived handle: the nine reads (API x verify, the
     order rotating with the damage) with the damage in place -- from the first one that raises on, each is a read
     AFTER a read that raised -- then the same nine reads after the failure has cleared (files restored, no fault).
@@ -2032,17 +2238,29 @@ def oracle_reread(ctx, path: str, shape: List[Any], variant: Optional[str], tag:
     mc = ModelCtx(inv)
     rec_healthy = recovered_by_scan(inv)
     targets = inv.reachable() + ([(HINT_PATH, "pointer")] if HINT_PATH in inv.roles else [])
+    if block_plane_only:
+        # a table built for its block structure: the Avro containers only, damage placed by block (+ the file gone);
+        # the other roles and damages are the standard table's business
+        targets = [x for x in targets if x[1] in ("list", "manifest")]
+    ctx.stats.setdefault("avro_blocks", {})[tag] = {r + "#" + str(i): len(avro_blocks(inv.files[q])) for i, (q, r) in enumerate(inv.reachable()) if r in ("list", "manifest")}
     cases: List[Dict[str, Any]] = []
     reported = set()
     n_sessions = n_reads = n_judged = 0
+    containers: List[Tuple[str, bytes]] = [(r, inv.files[q]) for q, r in targets if r in ("list", "manifest")]
     for p, role in targets:
         for dmg in reread_damages(inv, p, role, ctx.rng, ctx.tier):
+            if role in ("list", "manifest") and dmg["writes"].get(p):
+                containers.append((role, dmg["writes"][p]))
+            if block_plane_only and not (dmg.get("tail") or dmg["name"] == "delete"):
+                continue
             in_scope, data_changed = damage_scope(inv, p, role, dmg)
             if not (in_scope or data_changed):
                 continue
             rot = n_sessions % len(ALL_READS)
             seq = ALL_READS[rot:] + ALL_READS[:rot]
-            reads = [[a, v, "damaged"] for a, v in seq + seq[:1]] + [[a, v, "cleared"] for a, v in seq]
+            # every read twice with the damage in place (the second round: each API after ITS OWN earlier call raised,
+            # and after every other API's), then once after the failure has cleared
+            reads = [[a, v, "damaged"] for a, v in seq + seq] + [[a, v, "cleared"] for a, v in seq]
             rec_dmg = rec_healthy
             if dmg["writes"]:
                 apply_damage(inv, dmg)
@@ -2085,6 +2303,7 @@ def oracle_reread(ctx, path: str, shape: List[Any], variant: Optional[str], tag:
                     expr, late = model_expr(mc, {"writes": {}}, rec_healthy, api, verify)
                 cases.append({"case": dict(case, reread={"state": state, "position": i}), "impl": res["impl"], "trace": res["trace"], "expr": expr, "late": late})
     ctx.stats.setdefault("read_again_after_raise", {})[tag] = {"handles": n_sessions, "reads": n_reads, "reads_after_a_raise": n_judged}
+    corr_blocks(ctx, mc, containers, tag)
     t_impl = time.time()
     exprs = list(dict.fromkeys(c["expr"] for c in cases))
     try:
@@ -2114,8 +2333,11 @@ def run(ctx) -> None:
                 "byte flips at sampled and structural offsets, swap with a sibling of the same kind, transient OSError at every call "
                 "site incl. mid-stream} x {scan, scan(parallel=2), scan_batches(2), iter_records, row_count} x verify on/off; "
                 "a case is distinct by (table, file, damage, api, verify); the same through ONE handle that read the undamaged table "
-                "before the damage, and through ONE handle on which an earlier read RAISED (the nine reads with the damage in place, "
-                "then the nine reads after it has cleared; distinct by (table, file, damage, api, verify, damaged|cleared))")
+                "before the damage, and through ONE handle on which an earlier read RAISED (the nine reads, each twice, with the damage in place, "
+                "then the nine reads after it has cleared; distinct by (table, file, damage, api, verify, damaged|cleared)); "
+                "on Avro containers additionally per block {first, second, last}: cut mid-block, random bytes from mid-block on, count "
+                "byte flipped, stream failing once the bytes before mid-block were delivered -- on tables whose manifest list / "
+                "manifests span several blocks (one record per block; one bulk commit), every read twice on the same handle")
     ctx.trusted_base += [
         "translator/gen_read.py (exception tuples of the two Avro fallbacks; golden ASTs of 25 read-path functions)",
         "parser outcomes fed to the model are measured with fastavro / json / pyarrow on the same bytes "
@@ -2176,6 +2398,11 @@ def run(ctx) -> None:
                                          + ([(history_shapes(ctx)[0], None), ([[2, 1], [2], [1]], "json"), ([[2], [1], [1]], "no-pointer")]
                                             if ctx.tier == "thorough" else [])):
         oracle_reread(ctx, os.path.join(ctx.scratch, f"tr{i}"), shape, variant, f"read-again:{variant or ('history' if i else 'standard')}")
+    # containers of SEVERAL blocks: re-encoded one record per block (small table, every file), and as a bulk commit
+    # produces them (one manifest of enough entries; its Avro containers, damage placed by block)
+    oracle_reread(ctx, os.path.join(ctx.scratch, "trb"), VARIANTS["blocks"][0], "blocks", "read-again:blocks")
+    wide = wide_commit_shape(os.path.join(ctx.scratch, "trw0"))
+    oracle_reread(ctx, os.path.join(ctx.scratch, "trw"), wide + ([[1]] if ctx.tier == "thorough" else []), None, "read-again:wide-commit", block_plane_only=True)
     for i, (variant, sess) in enumerate([(None, False), ("no-pointer", False), (None, True)]
                                          + ([("bad-pointer", False), ("json", False), ("legacy-pointer-missing-file", False), ("no-pointer", True),
                                              ("dup", False)] if ctx.tier == "thorough" else [])):
